@@ -1718,6 +1718,12 @@ impl Linearizer {
             .into_iter()
             .map(Constraint::normalized)
             .collect::<Vec<_>>();
+        // every name the user wrote, also of a constraint that will emit no row
+        let user_row_names: IndexSet<String> = constraints
+            .iter()
+            .filter(|constraint| !constraint.name().is_empty())
+            .map(|constraint| constraint.name().to_string())
+            .collect();
         let mut bounds = BoundsAnalyzer::analyze(&domain, &constraints);
         bounds.apply_to_domain(&mut domain);
         bounds.restrict_to_domain(&domain);
@@ -1771,11 +1777,12 @@ impl Linearizer {
         // only user-provided names need dedup; generated rows stay unnamed.
         // duplicates get a __{n} suffix, which is still valid rooc syntax, and
         // a suffixed candidate never shadows a name the user wrote themselves
-        let source_names: IndexSet<String> = linear_constraints
+        let mut source_names: IndexSet<String> = linear_constraints
             .iter()
             .filter(|constraint| !constraint.name.is_empty())
             .map(|constraint| constraint.name.clone())
             .collect();
+        source_names.extend(user_row_names);
         let mut assigned_names: IndexSet<String> = IndexSet::new();
         for constraint in &mut linear_constraints {
             if constraint.name.is_empty() || assigned_names.insert(constraint.name.clone()) {
